@@ -7,6 +7,8 @@ use std::io::{BufRead, BufWriter, Write};
 use std::ops::Bound;
 use std::panic::{catch_unwind, AssertUnwindSafe};
 
+static mut SNAP_BASE: u64 = 0;
+
 pub struct Cfg {
     pub path: String,
     pub pagesize: u64,
@@ -20,6 +22,8 @@ pub struct Env {
     pub db: Option<Box<DB>>,
     pub txs: HashMap<u64, Box<Tx<'static>>>,
     pub buckets: HashMap<u64, (u64, Bucket<'static, 'static>)>,
+    pub snap: u64,
+    pub wtx: Option<u64>,
 }
 
 fn fmt_data(d: &Data) -> String {
@@ -52,10 +56,13 @@ impl Env {
             db: None,
             txs: HashMap::new(),
             buckets: HashMap::new(),
+            snap: unsafe { SNAP_BASE },
+            wtx: None,
         }
     }
 
     pub fn close_all(&mut self) {
+        self.wtx = None;
         self.buckets.clear();
         self.txs.clear();
         self.db = None;
@@ -164,10 +171,17 @@ impl Env {
             "begin" => {
                 let t = num(1);
                 let w = f[2] == "w";
+                if w && self.wtx.is_some() {
+                    // a second writer on this thread would block forever on the writer mutex
+                    return "would-block:writer-open".into();
+                }
                 let db: &'static DB = unsafe { &*(&**self.db.as_ref().expect("db open") as *const DB) };
                 match db.tx(w) {
                     Ok(tx) => {
                         self.txs.insert(t, Box::new(tx));
+                        if w {
+                            self.wtx = Some(t);
+                        }
                         "ok".into()
                     }
                     Err(e) => err_class(&e),
@@ -176,6 +190,9 @@ impl Env {
             "commit" => {
                 let t = num(1);
                 self.drop_tx_buckets(t);
+                if self.wtx == Some(t) {
+                    self.wtx = None;
+                }
                 let tx = self.txs.remove(&t).expect("unknown tx");
                 match (*tx).commit() {
                     Ok(()) => "ok".into(),
@@ -185,6 +202,9 @@ impl Env {
             "drop" => {
                 let t = num(1);
                 self.drop_tx_buckets(t);
+                if self.wtx == Some(t) {
+                    self.wtx = None;
+                }
                 self.txs.remove(&t);
                 "ok".into()
             }
@@ -336,8 +356,27 @@ impl Env {
                 fmt_list(&v)
             }
             "file" => {
-                // the model driver reads the file itself; we only make sure nothing is buffered
-                self.cfg.path.clone()
+                // snapshot the used part of the file for the model driver (which checks it after
+                // this process has finished).  Only the length is chosen here: the larger page
+                // count named by the two header pages; the Lean checker rejects a short snapshot.
+                use std::io::Read;
+                self.snap += 1;
+                let snap = format!("{}.snap{}", self.cfg.path, self.snap);
+                let mut f = std::fs::File::open(&self.cfg.path).expect("open db file");
+                let len = f.metadata().unwrap().len();
+                let ps = self.cfg.pagesize as usize;
+                let mut hdr = vec![0u8; 2 * ps];
+                f.read_exact(&mut hdr).expect("read headers");
+                let np = |o: usize| u64::from_le_bytes(hdr[o + 72..o + 80].try_into().unwrap());
+                let mut want = std::cmp::max(np(0), np(ps)).saturating_mul(ps as u64);
+                if want < 4 * ps as u64 || want > len {
+                    want = std::cmp::min(len, 64 << 20);
+                }
+                let mut buf = vec![0u8; want as usize];
+                buf[..2 * ps].copy_from_slice(&hdr);
+                f.read_exact(&mut buf[2 * ps..]).expect("read body");
+                std::fs::write(&snap, &buf).expect("write snapshot");
+                snap
             }
             other => panic!("unknown op {}", other),
         }
@@ -359,6 +398,7 @@ pub fn main(args: &[String]) {
         let f: Vec<&str> = line.split(' ').collect();
         if f[0] == "hist" {
             env.reset();
+            unsafe { SNAP_BASE = env.snap; }
             env = Env::new(&dbpath);
             writeln!(out, "{}", line).unwrap();
             continue;
